@@ -410,7 +410,8 @@ def main():
                     data, text, dt, rc, cmd = run_group(scratch, crate, [h], ((h.cbmc + " " if h.cbmc else "") + ("--unwindset " + us if us else "")).strip(), 1, tmo,
                                                         f"{crate}-{h.name}", tdir_tag=stag, kani_extra=kx)
                     return (h, data, text, dt, rc, cmd, None)
-                with ThreadPoolExecutor(max_workers=per_group_jobs) as ex:
+                # one single-threaded cbmc per harness: run up to 8 of them side by side (wall time of the quick tier)
+                with ThreadPoolExecutor(max_workers=max(per_group_jobs, min(len(sh), 8))) as ex:
                     out += list(ex.map(one, sh))
             return ("special", out)
 
